@@ -92,7 +92,7 @@ def run(ctx, prefix, n_hist, tmp, *, max_sessions=3, bases=None, check_py7zr=Tru
     for h in range(n_hist):
         k = rng.randrange(1, max_sessions + 1)
         sessions, filters = histories.gen_history(rng, tmp, k)
-        password = rng.choice([None, None, "pässwörd"])
+        password = rng.choice([None, None, "p\u00e4ssw\u00f6rd", "pa\u0308ss\u212B\U0001F511"])
         header = rng.choice(["raw", "encoded", "encoded", "encrypted"]) if password else rng.choice(["raw", "encoded", "encoded"])
         if password:
             # sessions may differ in whether they encrypt: plain base + encrypted append, encrypted base + plain append, ...
